@@ -101,10 +101,11 @@ def dquant_jobs(tier, seed, timeout=1500):
     """decoder-core scenarios with a +Q macroblock (DQUANT tracking: quantizer stays in 1..31)"""
     fam = [(1, 2, S(0, [(0, 4), mberr("Eof")], pt=0, fk=7)), (1, 2, S(0, [(0, 1), mberr("Eof")], pt=1, fk=7))]
     if tier == "thorough":
-        fam += [(1, 3, S(0, [(0, 5), mberr("Eof")], pt=1, fk=7)), (2, 2, S(0, [(0, 4), (0, 4), (0, 4), mberr("Eof")], pt=0, fk=7))]
+        fam += [(1, 3, S(0, [(0, 5), mberr("Eof")], pt=1, fk=7)), (2, 2, S(0, [(0, 4), (0, 4), (0, 4), mberr("Eof")], pt=0, fk=7)),
+                (2, 3, S(0, [(0, 1), (0, 0), (0, 5), (0, 4)], pt=1, fk=7))]
     gen, jobs = "", []
     for idx, (cls, sh, sc) in enumerate(fam):
-        gen += g.core_c1(cls, sh, 900 + idx, sc)
+        gen += g.core_c1(cls, sh, 900 + idx, sc, qobs=True)
         jobs.append(Job("h263", g.core_c1_name(cls, sh, 900 + idx), timeout, tagged=True, group="decoder-core step: DQUANT", params={"scenario": sc.describe()},
                         cbmc_args=["--max-field-sensitivity-array-size", "%d" % max(200, sc.nbytes() + 8)], allow_uncovered=ALL_COVERS,
                         need_any_cover=("step returned Ok", "step returned Err")))
